@@ -179,8 +179,12 @@ func (mp *MintPayload) verifySignatures(signatures []*AuthorizerSignature, state
 		}
 
 		ok, err := signatureScheme.Verify(v.Signature, toSign)
-		if !ok || err != nil {
+		if err != nil {
 			return errors.Wrap(err, "failed to verify signature")
+		}
+		if !ok {
+			// errors.Wrap(nil, ...) is nil: an invalid signature must be an error of its own
+			return errors.New("failed to verify signature")
 		}
 	}
 
